@@ -163,7 +163,8 @@ type Case struct {
 	// and the model, which has no limit, must still agree.
 	Limit          int  `json:"per_alertname_limit,omitempty"`
 	NamesInMetrics bool `json:"alert_names_in_metrics,omitempty"` // --enable-feature=alert-names-in-metrics
-	Routing        bool `json:"multi_receiver,omitempty"`         // routing tree with four receivers instead of one
+	Routing        bool `json:"multi_receiver,omitempty"`         // (older cases) = routing tree 1
+	Tree           int  `json:"routing_tree,omitempty"`           // 0 = one receiver "default"; k = routing tree k of the harness (trees[k-1])
 	Ops            []Op `json:"ops"`
 }
 
@@ -564,7 +565,9 @@ func genCase(r *vh.Rand, maxOps int) Case {
 		c.Limit = r.Range(1, 3)
 		c.NamesInMetrics = r.Bool()
 	}
-	c.Routing = c.Limit == 0 && r.Chance(1, 3)
+	if c.Limit == 0 && r.Chance(2, 5) {
+		c.Tree = r.Range(1, len(trees))
+	}
 	g := &gen{r: r, c: &c, now: epoch, instants: []int64{epoch}}
 	direct := c.Transport == "direct"
 	n := r.Range(3, maxOps)
@@ -658,44 +661,134 @@ func genCase(r *vh.Rand, maxOps int) Case {
 
 // ---------- receivers (reference: written here, independent of dispatch.Route) ----------
 
-const cfgMultiYAML = `
-route:
-  receiver: team-a
-  routes:
-  - matchers: [ alertname="B" ]
-    receiver: legacy-team-b
-  - matchers: [ job="web" ]
-    receiver: team-a-escalation
-    continue: true
-  - matchers: [ job="web" ]
-    receiver: team-b
-receivers:
-- name: team-a
-- name: team-b
-- name: team-a-escalation
-- name: legacy-team-b
-`
+// rnode: one route of a configured routing tree, as the HARNESS describes it. The YAML handed to config.Load is
+// generated from it, and refReceivers evaluates it with its own walk — never with dispatch.Route.Match, which the API and
+// the dispatcher share (a defect there would make them agree with each other).
+type rnode struct {
+	recv   string
+	mn, mv string // equality matcher name="value" ("" = the root: matches everything)
+	cont   bool   // continue: true
+	kids   []*rnode
+}
 
-var multiReceivers = []string{"team-a", "legacy-team-b", "team-a-escalation", "team-b"}
+// the routing trees of multi-receiver cases (index = Case.tree() - 1)
+var trees = []*rnode{
+	// 1: first match wins / a continue sibling followed by a matching one
+	{recv: "team-a", kids: []*rnode{
+		{recv: "legacy-team-b", mn: "alertname", mv: "B"},
+		{recv: "team-a-escalation", mn: "job", mv: "web", cont: true},
+		{recv: "team-b", mn: "job", mv: "web"},
+	}},
+	// 2: matching with continue, then NON-matching without continue, then matching; a further sibling after a matching
+	// one without continue is not reached
+	{recv: "team-a", kids: []*rnode{
+		{recv: "team-a-escalation", mn: "job", mv: "web", cont: true},
+		{recv: "legacy-team-b", mn: "alertname", mv: "B"},
+		{recv: "team-b", mn: "job", mv: "web"},
+		{recv: "team-ops", mn: "alertname", mv: "A"},
+	}},
+	// 3: the same sibling pattern nested inside a continue child, and again after it at the top level
+	{recv: "team-a", kids: []*rnode{
+		{recv: "team-b", mn: "alertname", mv: "A", cont: true, kids: []*rnode{
+			{recv: "team-a-escalation", mn: "job", mv: "web", cont: true},
+			{recv: "legacy-team-b", mn: "instance", mv: "web"},
+			{recv: "team-b-web", mn: "job", mv: "web"},
+		}},
+		{recv: "legacy-team-b", mn: "alertname", mv: "B"},
+		{recv: "team-ops", mn: "job", mv: "web"},
+		{recv: "team-b", mn: "sev", mv: "A"},
+	}},
+}
 
-// refReceivers: the receivers the configured tree selects for a label set (depth-first, first match unless continue)
+func (n *rnode) yaml(sb *strings.Builder, ind string) {
+	if n.mn != "" {
+		fmt.Fprintf(sb, "%s- matchers: [ %s=%q ]\n%s  receiver: %s\n", ind, n.mn, n.mv, ind, n.recv)
+		if n.cont {
+			fmt.Fprintf(sb, "%s  continue: true\n", ind)
+		}
+		ind += "  "
+	} else {
+		fmt.Fprintf(sb, "%sreceiver: %s\n", ind, n.recv)
+	}
+	if len(n.kids) > 0 {
+		fmt.Fprintf(sb, "%sroutes:\n", ind)
+		for _, k := range n.kids {
+			k.yaml(sb, ind)
+		}
+	}
+}
+
+func (n *rnode) receivers(seen map[string]bool, out *[]string) {
+	if !seen[n.recv] {
+		seen[n.recv] = true
+		*out = append(*out, n.recv)
+	}
+	for _, k := range n.kids {
+		k.receivers(seen, out)
+	}
+}
+
+func treeYAML(n *rnode) string {
+	var sb strings.Builder
+	sb.WriteString("route:\n")
+	n.yaml(&sb, "  ")
+	sb.WriteString("receivers:\n")
+	for _, r := range treeReceivers(n) {
+		fmt.Fprintf(&sb, "- name: %s\n", r)
+	}
+	return sb.String()
+}
+
+func treeReceivers(n *rnode) []string {
+	var out []string
+	n.receivers(map[string]bool{}, &out)
+	return out
+}
+
+// eval: the documented routing walk (depth-first; the children of a matching route are tried in order; a matching
+// child ends the walk over its siblings unless it says continue; a route none of whose children matched is itself
+// the match)
+func (n *rnode) eval(ls map[string]string) []string {
+	if n.mn != "" && ls[n.mn] != n.mv {
+		return nil
+	}
+	var all []string
+	for _, k := range n.kids {
+		m := k.eval(ls)
+		all = append(all, m...)
+		if len(m) > 0 && !k.cont {
+			break
+		}
+	}
+	if len(all) == 0 {
+		all = []string{n.recv}
+	}
+	return all
+}
+
+// tree: 0 = the single-receiver configuration, k = trees[k-1]
+func (c *Case) tree() int {
+	if c.Tree > 0 {
+		return c.Tree
+	}
+	if c.Routing {
+		return 1
+	}
+	return 0
+}
+
+// refReceivers: the receivers the configured tree selects for a label set
 func refReceivers(c *Case, ls map[string]string) []string {
-	if !c.Routing {
+	if c.tree() == 0 {
 		return []string{"default"}
 	}
-	if ls["alertname"] == "B" {
-		return []string{"legacy-team-b"}
-	}
-	if ls["job"] == "web" {
-		return []string{"team-a-escalation", "team-b"}
-	}
-	return []string{"team-a"}
+	return trees[c.tree()-1].eval(ls)
 }
 
 // values of the ?receiver= parameter: plain names, regexes, un-parenthesised alternations whose alternatives are a
 // prefix / suffix of other receiver names, a partial name, an invalid expression
 var recvQueries = []string{"team-a", "team-a|team-b", "team-b|team-a", "(team-a|team-b)", "team-.*", "legacy-.*|team-a", "team", ".*",
-	"team-a-escalation", "default", "def|xyz", "default|x", "["}
+	"team-a-escalation", "default", "def|xyz", "default|x", "[", "team-ops", "team-b-web|team-ops", "team-b", "team-b.*"}
 
 // refRecvMatch: the documented meaning of ?receiver=: the expression must match a WHOLE receiver name
 func refRecvMatch(q string) (func(string) bool, bool) {
@@ -921,8 +1014,8 @@ func runCase(t *testing.T, c *Case) (hist []string, viol []vh.Violation, tags ta
 			t.Fatal(err)
 		}
 		yaml := cfgYAML
-		if c.Routing {
-			yaml = cfgMultiYAML
+		if c.tree() > 0 {
+			yaml = treeYAML(trees[c.tree()-1])
 		}
 		cfg, err := config.Load(yaml)
 		if err != nil {
@@ -999,8 +1092,8 @@ func runCase(t *testing.T, c *Case) (hist []string, viol []vh.Violation, tags ta
 				tags["receiver-query-selects-a-proper-subset"]++
 			}
 			all := []string{"default"}
-			if c.Routing {
-				all = multiReceivers
+			if c.tree() > 0 {
+				all = treeReceivers(trees[c.tree()-1])
 			}
 			for _, rc := range all {
 				if match(rc) != groutes[rc] {
@@ -1051,6 +1144,9 @@ func runCase(t *testing.T, c *Case) (hist []string, viol []vh.Violation, tags ta
 				}
 				if want := refReceivers(c, a.labels); strings.Join(a.receivers, ",") != strings.Join(want, ",") {
 					violate("get-receivers-wrong", fmt.Sprintf("receivers of %s: %v, want %v", k, a.receivers, want))
+				}
+				if len(refReceivers(c, a.labels)) > 1 {
+					tags["get-alert-with-several-receivers"]++
 				}
 				routeTbl[k] = vh.Pair(coqLS(a.labels), vh.ListOf(refReceivers(c, a.labels), vh.Str))
 				if a.state != "active" || a.nonEmptyMuteList {
@@ -1473,7 +1569,7 @@ func TestCheck(t *testing.T) {
 			return vh.List(parts)
 		}
 		var rts []string
-		if c.Routing {
+		if c.tree() > 0 {
 			for _, k := range vh.SortedKeys(routeTbl) {
 				rts = append(rts, routeTbl[k])
 			}
@@ -1489,7 +1585,7 @@ func TestCheck(t *testing.T) {
 		}
 		run.Count("transport", c.Transport)
 		run.Count("per_alertname_limit", fmt.Sprintf("%d", c.Limit))
-		run.Count("multi_receiver", fmt.Sprintf("%v", c.Routing))
+		run.Count("routing_tree", fmt.Sprintf("%d", c.tree()))
 		run.Count("mode", "mode="+c.Mode)
 		run.Count("history_len", fmt.Sprintf("%02d-%02d", len(c.Ops)/5*5, len(c.Ops)/5*5+4))
 	}
